@@ -13,7 +13,7 @@ RULE = ('an ActiveObject subclass with a small tracked-source capacity (QUEUE_SI
         'the sources tracked before must keep their ideal posting schedule. distinct_nontrivial = distinct (capacity, rejected-source '
         'parameters, inside/outside, context-switch sequence prefix) tuples')
 CASES = {'quick': 1000, 'thorough': 50000}
-BUDGET = {'quick': 50, 'thorough': 300}
+BUDGET = {'quick': 150, 'thorough': 300}
 REQUIRE = {'runs': 400, 'rejected_nondeferred': 100, 'rejected_deferred': 100, 'rejected_from_handler': 80}
 ASSUME = ['instantaneous-computation time model']
 ANNOUNCE_CASES = True
